@@ -799,6 +799,31 @@ func (h *H) boundaries() {
 			h.o.Monitor("cap-not-enforced", lib.L(lib.N(5), lib.NI(out.Size())), "WriteVersionVector accepted a vector of more than 65535 entries")
 		}
 	}
+	// Merge has no entry cap either (theorems C16_merge_lub / C16_merge_comm hold for all vectors): the join laws are
+	// evaluated on the implementation with a 65535-entry operand and operands whose union exceeds the wire cap
+	{
+		a := cluster.XVNewVV(big) // 65535 entries here (n00000 removed above)
+		for _, b := range []cluster.VersionVector{
+			cluster.XVNewVV(vec{"zz-late-joiner": 7}),
+			cluster.XVNewVV(vec{"n00001": 1 << 40, "zz-late-joiner": 1, "aa-early": 2}),
+			cluster.XVNewVV(vec{"n00000": 3}),
+		} {
+			ab, ba := a.Merge(b), b.Merge(a)
+			in := lib.L(lib.N(6), lib.NI(a.Size()), lib.NI(b.Size()))
+			if !ab.Equal(ba) {
+				h.o.Monitor("merge-comm", in, fmt.Sprintf("a.Merge(b) != b.Merge(a) for |a|=%d, |b|=%d (sizes %d / %d)", a.Size(), b.Size(), ab.Size(), ba.Size()))
+			}
+			for _, x := range []cluster.VersionVector{ab, ba} {
+				if c := x.Compare(a); c != cluster.VersionEqual && c != cluster.VersionAfter {
+					h.o.Monitor("merge-upper", in, fmt.Sprintf("merge of a (%d entries) and b (%d entries) is not >= a", a.Size(), b.Size()))
+				}
+				if c := x.Compare(b); c != cluster.VersionEqual && c != cluster.VersionAfter {
+					h.o.Monitor("merge-upper", in, fmt.Sprintf("merge of a (%d entries) and b (%d entries) is not >= b: an entry of b is missing or lower", a.Size(), b.Size()))
+				}
+			}
+		}
+		h.o.Info["merge_at_entry_cap"] = "join laws (commutative, upper bound of both operands) evaluated on the implementation with a 65535-entry operand and unions of 65536 / 65537 entries"
+	}
 	delete(big, "n00001")
 	h.capBoundary(big, false)
 	// headers announcing n entries with no / one entry behind them
